@@ -151,6 +151,8 @@ Definition trampoline_module : string := {q(pr['trampoline_module'])}.
 Definition trampoline_module_from_source : string := {q(tramp_mod_src)}.
 Definition trampoline_accepts : list string := {strs(pr['trampoline_accepts'])}.
 Definition trampoline_rejects_wrong_sig : list string := {strs(pr['trampoline_rejects_wrong_sig'])}.
+(* `_<public name>` imports the tool lets through unchanged *)
+Definition trampoline_accepts_lowlevel : list string := {strs(pr['trampoline_accepts_lowlevel'])}.
 Definition trampoline_rejects_unknown : bool := {b(pr['unknown_rejected'])}.
 Definition trampoline_rejects_empty_name : bool := {b(pr['empty_name_rejected'])}.
 Definition trampoline_rejects_other_version : bool := {b(pr['other_version_rejected'])}.
